@@ -1,10 +1,13 @@
 """C02 Stored data is reused only under an identical lineage (no stale reads).
 
-Random histories of operations on two long-lived contexts sharing one storage
-directory: set_config (tracked / untracked / shared / child option), re-registration
-of a same-named plugin with another default, version, dependency or class name,
-new_context, make and get_array. After every step the monitors compare with a
-brand-new context built from the same final definitions (empty storage): keys and
+Random histories of operations on two to four long-lived contexts sharing one storage
+directory (contexts derived with new_context stay in use beside their parents; every
+mutation is applied to a subset of the contexts, so their settings diverge): set_config
+(tracked / untracked / shared / child option), re-registration of a same-named plugin
+with another default, version, dependency or class name, new_context, make and
+get_array. Every context has its own model of what it was told; after every step the
+monitors compare each context with a brand-new context built from its model (empty
+storage): keys and
 arrays must agree (row values encode class, version and every tracked option); key
 changes must hit exactly the changed plugin and its descendants; key tables must be
 identical across processes / hash seeds / option insertion orders; fuzzy matching must
@@ -173,19 +176,24 @@ def gen_history(seed, idx):
     rng = random.Random(f"{seed}:c02:{idx}")
     steps = []
     cur_ver = {n: BASE_DEFS[n]["version"] for n in BASE_DEFS}
+
+    def who():
+        # which of the live contexts a mutation is applied to (indices are taken modulo the number of contexts)
+        return rng.choice([[0, 1, 2, 3], [0, 1, 2, 3], [0], [1], [2], [0, 2]])
+
     for _ in range(rng.randint(3, 12)):
         r = rng.random()
         if r < 0.22:
             opt = rng.choice(["opt_a", "opt_b", "shared_s", "opt_e", "opt_a_child"])
-            steps.append({"op": "set_tracked", "opt": opt, "value": rng.choice(VALUES)})
+            steps.append({"op": "set_tracked", "opt": opt, "value": rng.choice(VALUES), "who": who()})
         elif r < 0.30:
-            steps.append({"op": "set_untracked", "opt": "u_a", "value": rng.choice(VALUES)})
+            steps.append({"op": "set_untracked", "opt": "u_a", "value": rng.choice(VALUES), "who": who()})
         elif r < 0.50:
             p = rng.choice(["pa", "pb", "pc", "pe"])
             what = rng.choice(["default", "version", "cname", "deps"])
             if p == "pa" and what in ("default", "deps"):
                 what = "version"  # pa shares opt_a with its child class: strax refuses diverging defaults
-            st = {"op": "reregister", "plugin": p, "what": what}
+            st = {"op": "reregister", "plugin": p, "what": what, "who": who()}
             if what == "default":
                 own = {"pa": "opt_a", "pb": "opt_b", "pc": None, "pe": "opt_e"}[p]
                 if own is None:
@@ -211,19 +219,22 @@ def gen_history(seed, idx):
                 # release B then release A' under the version of A, no request in between (A -> B -> A')
                 back = cur_ver[p]
                 other = rng.choice([v for v in ["0.0.1", "0.0.2", "0.1.0", "0.3.0"] if v != back])
-                steps.append({"op": "reregister", "plugin": p, "what": "version", "value": other, "observe": False})
+                steps.append({"op": "reregister", "plugin": p, "what": "version", "value": other, "observe": False,
+                              "who": st["who"]})
                 st["also_version"] = back
             cur_ver[p] = st["value"] if st["what"] == "version" else st.get("also_version", cur_ver[p])
             steps.append(st)
-        elif r < 0.56:
-            steps.append({"op": "new_context", "who": rng.choice([0, 1])})
+        elif r < 0.58:
+            # derive a context; the parent may stay in use beside the child (their settings then diverge)
+            steps.append({"op": "new_context", "who": rng.choice([0, 1, 2]), "keep_parent": rng.random() < 0.6})
         elif r < 0.80:
-            steps.append({"op": "make", "who": rng.choice([0, 1]), "target": rng.choice(ORDER[1:])})
+            steps.append({"op": "make", "who": rng.choice([0, 1, 2, 3]), "target": rng.choice(ORDER[1:])})
         else:
-            steps.append({"op": "get_array", "who": rng.choice([0, 1]), "target": rng.choice(ORDER[1:])})
-    # always end with requests from both contexts
+            steps.append({"op": "get_array", "who": rng.choice([0, 1, 2, 3]), "target": rng.choice(ORDER[1:])})
+    # always end with requests from several contexts
     steps.append({"op": "get_array", "who": 0, "target": rng.choice(["pe", "pb", "pd"])})
     steps.append({"op": "get_array", "who": 1, "target": rng.choice(["pe", "pa", "pc"])})
+    steps.append({"op": "get_array", "who": 2, "target": rng.choice(["pe", "pb", "pd"])})
     fz = rng.choice([None, {"fuzzy_for": [rng.choice(["pa", "pb", "pc"])]}, {"fuzzy_for_options": [rng.choice(["opt_a", "opt_b", "shared_s"])]}])
     return {"steps": steps, "fuzzy": fz}
 
@@ -262,71 +273,107 @@ def run_history(h):
         if len(viol) < 8:
             viol.append({"sig": sig, "what": f"{kind} at step {step_i}: {text}"[:700], "case": h})
 
-    defs = copy.deepcopy(BASE_DEFS)
-    config = {}
     d = hrun.mktemp("c02-")
+    fresh_cache = {}
+
+    def mkey(m):
+        return json.dumps(m["defs"], sort_keys=True, default=repr) + repr(sorted(m["config"].items(), key=lambda kv: kv[0]))
+
+    def fresh_keys_of(m):
+        k = "k" + mkey(m)
+        if k not in fresh_cache:
+            fresh_cache[k] = key_table(fresh_context(m["defs"], m["config"]))
+        return fresh_cache[k]
+
+    def fresh_arrays_of(m):
+        k = "a" + mkey(m)
+        if k not in fresh_cache:
+            fresh_cache[k] = fresh_arrays(m["defs"], m["config"])
+        return fresh_cache[k]
+
     try:
-        ctx = [fresh_context(defs, config, d), fresh_context(defs, config, d)]
-        prev_keys = key_table(fresh_context(defs, config))
+        # every live context has its own model (definitions + options) = what a brand-new context would be given
+        models = [{"ctx": fresh_context(BASE_DEFS, {}, d), "defs": copy.deepcopy(BASE_DEFS), "config": {}} for _ in range(2)]
         mutated = False
         requests_after_mutation = 0
         for i, s in enumerate(h["steps"]):
             op = s["op"]
-            expect_changed = None
-            if op in ("set_tracked", "set_untracked"):
-                old_cfg = dict(config)
-                config[s["opt"]] = s["value"]
-                for c in ctx:
-                    c.set_config({s["opt"]: s["value"]})
-                mutated = True
-                if op == "set_untracked":
-                    expect_changed = set()
+            targets = sorted({k % len(models) for k in s.get("who", [0, 1])}) if op in ("set_tracked", "set_untracked", "reregister") else []
+            for k in targets:
+                m = models[k]
+                defs, config = m["defs"], m["config"]
+                before_keys = fresh_keys_of(m)
+                expect_changed = None
+                if op in ("set_tracked", "set_untracked"):
+                    old_cfg = dict(config)
+                    config[s["opt"]] = s["value"]
+                    m["ctx"].set_config({s["opt"]: s["value"]})
+                    mutated = True
+                    if op == "set_untracked":
+                        expect_changed = set()
+                    else:
+                        def eff(cfg, o):
+                            if o in cfg:
+                                return cfg[o]
+                            for dd in defs.values():
+                                if o in dd["opts"]:
+                                    return dd["opts"][o][0]
+                        same = json.dumps(eff(old_cfg, s["opt"]), default=repr) == json.dumps(eff(config, s["opt"]), default=repr)
+                        takers = [n for n, dd in defs.items() if s["opt"] in dd["opts"]]
+                        expect_changed = set() if same else set().union(*[descendants(defs, n) for n in takers]) if takers else set()
                 else:
-                    def eff(cfg, o):
-                        if o in cfg:
-                            return cfg[o]
-                        for dd in defs.values():
-                            if o in dd["opts"]:
-                                return dd["opts"][o][0]
-                    same = json.dumps(eff(old_cfg, s["opt"]), default=repr) == json.dumps(eff(config, s["opt"]), default=repr)
-                    takers = [n for n, dd in defs.items() if s["opt"] in dd["opts"]]
-                    expect_changed = set() if same else set().union(*[descendants(defs, n) for n in takers]) if takers else set()
-            elif op == "reregister":
-                p = s["plugin"]
-                before = json.dumps(defs[p], sort_keys=True, default=repr)
-                if s["what"] == "default":
-                    was_set = s["opt"] in config
-                    old_default = defs[p]["opts"][s["opt"]][0]
-                    defs[p]["opts"][s["opt"]] = (s["value"], True)
-                    changed = (not was_set) and json.dumps(old_default, default=repr) != json.dumps(s["value"], default=repr)
-                elif s["what"] == "version":
-                    changed = defs[p]["version"] != s["value"]
-                    defs[p]["version"] = s["value"]
-                elif s["what"] == "cname":
-                    changed = defs[p]["cname"] != s["value"]
-                    defs[p]["cname"] = s["value"]
+                    p = s["plugin"]
+                    if s["what"] == "default":
+                        was_set = s["opt"] in config
+                        old_default = defs[p]["opts"][s["opt"]][0]
+                        defs[p]["opts"][s["opt"]] = (s["value"], True)
+                        changed = (not was_set) and json.dumps(old_default, default=repr) != json.dumps(s["value"], default=repr)
+                    elif s["what"] == "version":
+                        changed = defs[p]["version"] != s["value"]
+                        defs[p]["version"] = s["value"]
+                    elif s["what"] == "cname":
+                        changed = defs[p]["cname"] != s["value"]
+                        defs[p]["cname"] = s["value"]
+                    else:
+                        changed = defs[p]["deps"] != s["value"]
+                        defs[p]["deps"] = list(s["value"])
+                    mutated = True
+                    ver_before = defs[p]["version"]
+                    if s.get("also_version") is not None:
+                        defs[p]["version"] = s["also_version"]
+                    classes = make_classes(defs)
+                    regs = [classes[p]] + ([classes["pd"]] if p == "pa" else [])
+                    m["ctx"].register(regs)
+                    affected = descendants(defs, p) | (descendants(defs, "pd") if p == "pa" and s["what"] in ("version", "cname") else set())
+                    if p == "pa" and s["what"] == "default":
+                        affected = descendants(defs, p)  # the child overrides opt_a, its own lineage drops the parent's option
+                    expect_changed = affected if changed else set()
+                    if s.get("also_version") is not None and ver_before != s["also_version"]:
+                        expect_changed = expect_changed | descendants(defs, p) | (descendants(defs, "pd") if p == "pa" else set())
+                after_keys = fresh_keys_of(m)
+                cnt["sensitivity_checks"] = cnt.get("sensitivity_checks", 0) + 1
+                got_changed = {n for n in ORDER if after_keys[n] != before_keys[n]}
+                if got_changed != expect_changed:
+                    if s.get("what") == "deps" and got_changed < expect_changed:
+                        hidden["deps"] = True
+                    add("key-sensitivity", f"step {s} changed the keys of {sorted(got_changed)}, expected {sorted(expect_changed)}", i,
+                        after=op, what=s.get("what"))
+            if op == "new_context":
+                k = s["who"] % len(models)
+                child = models[k]["ctx"].new_context()
+                cm = {"ctx": child, "defs": copy.deepcopy(models[k]["defs"]), "config": dict(models[k]["config"])}
+                if s.get("keep_parent"):
+                    cnt["derived_contexts_beside_parent"] = cnt.get("derived_contexts_beside_parent", 0) + 1
+                    if len(models) < 4:
+                        models.append(cm)
+                    else:
+                        models[(k + 1) % len(models)] = cm
                 else:
-                    changed = defs[p]["deps"] != s["value"]
-                    defs[p]["deps"] = list(s["value"])
-                mutated = True
-                ver_before = defs[p]["version"]
-                if s.get("also_version") is not None:
-                    defs[p]["version"] = s["also_version"]
-                classes = make_classes(defs)
-                regs = [classes[p]] + ([classes["pd"]] if p == "pa" else [])
-                for c in ctx:
-                    c.register(regs)
-                affected = descendants(defs, p) | (descendants(defs, "pd") if p == "pa" and s["what"] in ("version", "cname") else set())
-                if p == "pa" and s["what"] == "default":
-                    affected = descendants(defs, p)  # the child overrides opt_a, its own lineage drops the parent's option
-                expect_changed = affected if changed else set()
-                if s.get("also_version") is not None and ver_before != s["also_version"]:
-                    expect_changed = expect_changed | descendants(defs, p) | (descendants(defs, "pd") if p == "pa" else set())
-            elif op == "new_context":
-                ctx[s["who"]] = ctx[s["who"]].new_context()
+                    models[k] = cm
             elif op in ("make", "get_array"):
-                c = ctx[s["who"]]
-                want = fresh_arrays(defs, config)
+                m = models[s["who"] % len(models)]
+                c = m["ctx"]
+                want = fresh_arrays_of(m)
                 try:
                     with common.quiet():
                         if op == "make":
@@ -342,27 +389,18 @@ def run_history(h):
                     cnt["stale_candidates"] = cnt.get("stale_candidates", 0) + 1
                 w = want[s["target"]]
                 if not (len(got) == len(w) and np.array_equal(got["v0"], w["v0"])):
-                    add("stale-data", f"context {s['who']} returned v0={got['v0'].tolist()} for {s['target']}, a fresh context "
+                    add("stale-data", f"context {s['who'] % len(models)} returned v0={got['v0'].tolist()} for {s['target']}, a fresh context "
                                       f"with the same definitions computes {w['v0'].tolist()}", i, op=op)
-            # key tables after every step
-            fresh_keys = key_table(fresh_context(defs, config))
-            for k, c in enumerate(ctx):
-                if op == "reregister" and not s.get("observe", True):
-                    continue
-                cnt["key_tables_compared"] = cnt.get("key_tables_compared", 0) + 1
-                kt = key_table(c)
-                if kt != fresh_keys:
-                    diff = {n: (kt[n], fresh_keys[n]) for n in ORDER if kt[n] != fresh_keys[n]}
-                    add("stale-key", f"context {k} keys differ from a fresh context: {diff}", i, after=op, what=s.get("what"))
-            if expect_changed is not None:
-                cnt["sensitivity_checks"] = cnt.get("sensitivity_checks", 0) + 1
-                got_changed = {n for n in ORDER if fresh_keys[n] != prev_keys[n]}
-                if got_changed != expect_changed:
-                    if s.get("what") == "deps" and got_changed < expect_changed:
-                        hidden["deps"] = True
-                    add("key-sensitivity", f"step {s} changed the keys of {sorted(got_changed)}, expected {sorted(expect_changed)}", i,
-                        after=op, what=s.get("what"))
-            prev_keys = fresh_keys
+            # key tables of every live context after every step
+            if not (op == "reregister" and not s.get("observe", True)):
+                for k, m in enumerate(models):
+                    cnt["key_tables_compared"] = cnt.get("key_tables_compared", 0) + 1
+                    kt = key_table(m["ctx"])
+                    fk = fresh_keys_of(m)
+                    if kt != fk:
+                        diff = {n: (kt[n], fk[n]) for n in ORDER if kt[n] != fk[n]}
+                        add("stale-key", f"context {k} keys differ from a fresh context with its settings: {diff}", i, after=op, what=s.get("what"))
+        defs, config = models[0]["defs"], models[0]["config"]
         # ---- fuzzy matching against what is stored now
         fz = h.get("fuzzy")
         if fz:
